@@ -81,6 +81,12 @@ vgatherdpd (%rax,%xmm1,8), %ymm2, %ymm3
 prefetcht0 64(%rdi)
 foobarq (%rax), %rbx
 vunknownpd %ymm0, (%rax)
+vaddpd tab(%rax), %ymm1, %ymm2
+vmulsd .LC0(%rip), %xmm0, %xmm1
+movq glob(%rip), %rax
+addq $1, counter(%rip)
+vmovapd %ymm0, buf(%rax,%rcx,8)
+movl %eax, arr(,%rcx,4)
 """
 
 A64_VOCAB = """ldr x0, [x1]
@@ -130,6 +136,10 @@ st1d {z0.d}, p0, [x0, x1, lsl #3]
 prfm pldl1keep, [x0, #64]
 fadd d0, d1, d2
 fooload x0, [x1]
+ldr x0, [x1, :lo12:tab]
+ldr d0, [x2, :lo12:cst]
+ldr q0, [x3, #:lo12:.LC1]
+str x0, [x1, #:lo12:glob]
 """
 
 
@@ -159,7 +169,7 @@ def judge(ctx, case, replay):
     for key, text in C.oracle(case):
         ctx.violation(key, "%s %s `%s`: %s" % (case["origin"], case["isa"], case["text"], text), replay)
     for ob in case.get("rowobs", []):
-        for key, text in R.row_oracle(case["isa"], case["yrows"], ob, case["text"]):
+        for key, text in R.row_oracle(case["isa"], case["yrows"], ob, case["text"], from_file=case["origin"].startswith("shipped model")):
             ctx.violation(key, "%s %s %s" % (case["origin"], case["isa"], text), replay)
 
 
